@@ -165,6 +165,8 @@ impl<T: AsRawFd> CoIo<T> {
         // this is an earlier return try for nonblocking read
         // it's useful for server but not necessary for client
         match recv(self.io.fd, buf, MsgFlags::MSG_PEEK) {
+            #[cfg(may_verif)]
+            ref r if crate::verif::sys(&self.io.io_flag, "sys.peek", r) => unreachable!(),
             Ok(n) => return Ok(n),
             Err(e) => {
                 if e == nix::errno::Errno::EAGAIN {
@@ -192,6 +194,8 @@ impl<T: AsRawFd + Read> Read for CoIo<T> {
         // this is an earlier return try for nonblocking read
         // it's useful for server but not necessary for client
         match self.inner.read(buf) {
+            #[cfg(may_verif)]
+            ref r if crate::verif::sys(&self.io.io_flag, "sys.read", r) => unreachable!(),
             Ok(n) => return Ok(n),
             Err(e) => {
                 // raw_os_error is faster than kind
@@ -220,6 +224,8 @@ impl<T: AsRawFd + Write> Write for CoIo<T> {
         self.io.reset();
         // this is an earlier return try for nonblocking write
         match self.inner.write(buf) {
+            #[cfg(may_verif)]
+            ref r if crate::verif::sys(&self.io.io_flag, "sys.write", r) => unreachable!(),
             Ok(n) => return Ok(n),
             Err(e) => {
                 // raw_os_error is faster than kind
